@@ -35,7 +35,7 @@ CLAUSES = {
     "angle between any two stars unchanged": "proved exactly [ideal, C06_equ_isometry, C06_ecl_isometry, C06_rotation_facts]; binary64 1e-9 deg searched",
     "invertible (an inverse rotation exists); unit vectors stay unit vectors": "proved [ideal/spec, C06_rotation_facts]",
     "proper motion displaces the result linearly in elapsed time (it enters as start + 100*mu*t, the argument of the rotation)":
-        "proved [ideal, C06_*_rotation: star a d ma md t]; searched in binary64",
+        "proved [ideal, C06_*_rotation: star a d ma md t]; searched in binary64 at 1e-9 deg against the precession of the displaced direction given as ordinary coordinates (a declination carried beyond +-90 deg folded over the pole), including deterministic stars within a few tenths of a degree of either pole with 10 arcsec/yr toward the pole over intervals long enough to cross it, for all three routines",
     "ecliptical precession is Rz(p+Pi).Rx(-eta).Rz(-Pi) with the published eta, Pi, p": "proved [ideal, C06_ecl_closed_form + C06_ecl_rotation]",
     "Newcomb (FK4) variant: same rotation type with Newcomb's polynomials, total (no exception)": "proved [ideal, C06_newcomb_closed_form + C06_newcomb_rotation]",
     "mean obliquity = 23d26'21.448'' + Laskar polynomial": "proved [ideal, C06_obliquity]",
@@ -154,6 +154,15 @@ def orbit_frame(i, arg, node):
     return P, N
 
 
+def fold_dir(lon, lat):
+    """the same direction with the latitude folded into [-90, 90] (a latitude beyond a pole means that the
+    star has passed over it: latitude 180 - lat on the opposite meridian)"""
+    lat = (lat + 180.0) % 360.0 - 180.0
+    if lat > 90.0: lon, lat = lon + 180.0, 180.0 - lat
+    elif lat < -90.0: lon, lat = lon + 180.0, -180.0 - lat
+    return lon % 360.0, lat
+
+
 def dang(x, y):
     return abs((float(x) - float(y) + 180.0) % 360.0 - 180.0)
 
@@ -183,6 +192,33 @@ def search(rng, tier, deep):
             report(key + "-raises", "%s raises %s: %s" % (expr, type(ex).__name__, ex), expr, expr)
             return None
 
+    # proper motion carrying a star over a pole (deterministic, every run, all three routines): stars within a
+    # few tenths of a degree (and up to 5 deg) of either pole, 10 arcsec/yr toward the pole, intervals long enough
+    # to cross it; the result must be the precession of the linearly displaced direction (1e-9 deg)
+    AS_ = 1.0 / 3600.0
+    for name, fn in (("equ", C.precession_equatorial), ("newcomb", C.precession_newcomb), ("ecl", C.precession_ecliptical)):
+        cen_ = 36524.2199 if name == "newcomb" else 36525.0
+        for (lo, la) in ((37.95, 89.26), (37.95, 89.95), (200.0, 88.2), (123.0, 85.5), (0.0, 89.999),
+                         (317.0, -89.4), (80.0, -88.0), (250.0, -85.1), (180.0, -89.95)):
+            sgn = 1.0 if la > 0 else -1.0
+            for (mua, mud) in ((0.0, 10.0 * sgn), (3.0, 6.5 * sgn), (-8.0, 10.0 * sgn), (10.0, 0.5 * sgn)):
+                for (c0, c1) in ((0.0, 2.0), (-1.0, 3.0), (-4.0, 1.0), (5.0, -5.0), (-5.0, 5.0), (0.0, 0.5), (-20.0, -10.0)):
+                    ja, jb = J2000 + 36525.0 * c0, J2000 + 36525.0 * c1
+                    t_ = (jb - ja) / cen_
+                    ma_, md_ = mua * AS_, mud * AS_
+                    xp = "%s(%s, %s, %s, %s, %s, %s)" % (fn.__name__, E(ja), E(jb), A(lo), A(la), A(ma_), A(md_))
+                    qlo, qla = fold_dir(lo + 100 * ma_ * t_, la + 100 * md_ * t_)
+                    xq = "%s(%s, %s, %s, %s)" % (fn.__name__, E(ja), E(jb), A(qlo), A(qla))
+                    p1 = call(name, fn, xp, Epoch(ja), Epoch(jb), Angle(lo), Angle(la), Angle(ma_), Angle(md_))
+                    p2 = call(name, fn, xq, Epoch(ja), Epoch(jb), Angle(qlo), Angle(qla))
+                    if p1 is not None and p2 is not None:
+                        d = sep(vec(*p1), vec(*p2))
+                        if not d <= 1e-9:
+                            report(name + "-proper-motion-linear",
+                                   "%s differs by %.3g deg from the start displaced by mu*(elapsed years) = (%s, %s)%s: %s"
+                                   % (xp, d, fmt(lo + 100 * ma_ * t_), fmt(la + 100 * md_ * t_),
+                                      " -- the star passes over the pole" if abs(la + 100 * md_ * t_) > 90 else "", xq),
+                                   [xp, xq], "[%s, %s]" % (xp, xq))
     full = deep or tier == "thorough"
     N = 6000 if full else 500
     for it in range(N):
@@ -227,9 +263,12 @@ def search(rng, tier, deep):
             t = (j1 - j0) / cen
             la_s = la
             xp = "%s(%s, %s, %s, %s, %s, %s)" % (fname, E(j0), E(j1), A(lo), A(la_s), A(ma), A(md))
-            xq = "%s(%s, %s, %s, %s)" % (fname, E(j0), E(j1), A(lo + 100 * ma * t), A(la_s + 100 * md * t))
+            # the displaced start as ordinary coordinates (a latitude carried beyond a pole folded back): the
+            # reference call never sees a latitude outside [-90, 90]
+            qlo, qla = fold_dir(lo + 100 * ma * t, la_s + 100 * md * t)
+            xq = "%s(%s, %s, %s, %s)" % (fname, E(j0), E(j1), A(qlo), A(qla))
             p1 = call(name, fn, xp, e0, e1, Angle(lo), Angle(la_s), Angle(ma), Angle(md))
-            p2 = call(name, fn, xq, e0, e1, Angle(lo + 100 * ma * t), Angle(la_s + 100 * md * t))
+            p2 = call(name, fn, xq, e0, e1, Angle(qlo), Angle(qla))
             if p1 is not None and p2 is not None:
                 d = sep(vec(*p1), vec(*p2))
                 if not d <= idtol:
